@@ -228,6 +228,14 @@ class Context:
             self.opaque_seen.add(('extern', name))
         return I.opaque_call(d.get('event', name), args, kwargs, node, d)
 
+    def getter_value(self, I, name, recv_t, rt):
+        if rt.name == 'Opt':
+            fn = self.uf('getter.' + name + '.isnone', T.Obj, T.B)
+            fv = self.uf('getter.' + name, T.Obj, self.sort_of(rt.args[0]))
+            return VOpt(fn(recv_t), self.from_term(I, fv(recv_t), rt.args[0]))
+        f = self.uf('getter.' + name, T.Obj, self.sort_of(rt))
+        return self.from_term(I, f(recv_t), rt)
+
     def opaque_method(self, I, recv, mname, args, kwargs, node):
         label = recv.label if isinstance(recv, VOpaque) else ''
         if label == 'logger':
@@ -240,8 +248,7 @@ class Context:
         if d.get('pure') and isinstance(recv, VOpaque) and not args and d.get('returns') is not None:
             # a getter: its result is a function of the receiver (same object, same answer)
             rt = d['returns']
-            f = self.uf('getter.' + key, T.Obj, self.sort_of(rt))
-            res = self.from_term(I, f(recv.t), rt)
+            res = self.getter_value(I, key, recv.t, rt)
             I.emit(d.get('event', key), [recv], kwargs, res)
             return res
         return I.opaque_call(d.get('event', key), [recv] + list(args), kwargs, node, d)
@@ -779,8 +786,10 @@ class Context:
             I.assume(z3.And(t != self.NONE_OBJ, self.obj_truthy(t)))    # an object without __bool__/__len__ is truthy
             return VOpaque(t, label)
         if n == 'Value':
-            # a value of unknown type: only its truthiness can be observed
-            return VOpaque(I.fresh(name, T.Obj), ty.args[0] if ty.args else '')
+            # a value of unknown type (not None): only its truthiness can be observed
+            t = I.fresh(name, T.Obj)
+            I.assume(t != self.NONE_OBJ)
+            return VOpaque(t, ty.args[0] if ty.args else '')
         if n == 'Opt':
             inner = self.make_symbolic(I, ty.args[0], name)
             return VOpt(I.fresh(name + '_none', T.B), inner)
@@ -1180,8 +1189,7 @@ class Context:
             if not d.get('pure') or d.get('returns') is None:
                 raise Unsupported('getter(%s): not declared as a pure extern with a return type' % name, node)
             recv = I.unwrap(I.ev(node.args[1], frame))
-            f = self.uf('getter.' + name, T.Obj, self.sort_of(d['returns']))
-            return self.from_term(I, f(self.obj_term(I, recv, node)), d['returns'])
+            return self.getter_value(I, name, self.obj_term(I, recv, node), d['returns'])
         if fn == 'rep':
             e = I.as_int(I.ev(node.args[0], frame))
             n = I.as_int(I.ev(node.args[1], frame))
@@ -1204,6 +1212,9 @@ class Context:
                     t = like.th.Put(t, self.map_key_term(I, like, k, node), self.map_val_term(I, like, x, node))
                 return VMap(t, like.th, like.kkind, like.vkind)
             a0 = I.ev(node.args[0], frame)
+            if isinstance(a0, VOpaque) and a0.label in ('missing', 'field'):
+                self.qcount += 1
+                return VBool(z3.Const('missing-map!%d' % self.qcount, T.B)) if fn != 'map_get' else a0
             if fn == 'map_eq':
                 a1 = I.ev(node.args[1], frame)
                 if concrete(a0) and not concrete(a1):
